@@ -186,8 +186,12 @@ Definition agrees (c : case) : bool :=
   all2 ev_matches fwd (h_events c) &&
   match partial_forward s e with
   | None =>
-      all2 req_matches fwd (h_breqs c) && negb (h_bgarbage c) &&
-      (h_bconns c =? (match fwd with [] => 0 | _ => 1 end))%N
+      (all2 req_matches fwd (h_breqs c) ||
+       (* the proxy gives up on a reply it cannot parse and closes at once: whether the backend had
+          already read the request just forwarded is a race of the TCP teardown *)
+       (match e with EBadReply => all2 req_matches (removelast fwd) (h_breqs c) | _ => false end)) &&
+      negb (h_bgarbage c) &&
+      (h_bconns c =? (match h_breqs c with [] => 0 | _ => 1 end))%N
   | Some m =>
       (* the header block of a request whose body never completed went out as well *)
       all2 req_matches fwd (firstn n (h_breqs c)) &&
@@ -301,6 +305,16 @@ Fixpoint walk (ls wf : bool) (reqs : list sem_req) (reps : list (bytes * list N)
       end
   end.
 
+Fixpoint replies_exact (reqs : list sem_req) (reps : list (bytes * list N)) : bool :=
+  match reqs with
+  | [] => true
+  | m :: r =>
+      (match reps with
+       | x :: _ => match intended_reply (is_head m) (fst x) with Some _ => true | None => false end
+       | [] => true
+       end) && replies_exact r (tl reps)
+  end.
+
 Fixpoint any_stray (reqs : list sem_req) (reps : list (bytes * list N)) : bool :=
   match reqs with
   | [] => false
@@ -323,9 +337,12 @@ Definition case_sigs (c : case) : list N :=
   let wf := (length reqs =? length (h_msgs c))%nat in
   walk (lockstep c) wf reqs (h_replies c) (h_breqs c) (h_cresps c) false
   ++ (if h_cgarbage c then [if any_stray reqs (h_replies c) then SIG_STRAY_AFTER_HEAD else SIG_CLIENT_GARBAGE] else [])
-  ++ (if all2 ev_ok (firstn (length (h_events c)) (h_breqs c)) (h_events c) &&
-         ((length (h_events c) =? length (h_breqs c))%nat || (h_bgarbage c && (S (length (h_events c)) =? length (h_breqs c))%nat))
-      then [] else [SIG_EVENT])       (* a request cut short by the client is not recorded *)
+  ++ (if all2 ev_ok (firstn (length (h_events c)) (h_breqs c)) (firstn (length (h_breqs c)) (h_events c)) &&
+         ((length (h_events c) =? length (h_breqs c))%nat
+          || (h_bgarbage c && (S (length (h_events c)) =? length (h_breqs c))%nat)     (* a request cut short by the client is not recorded *)
+          || (negb (replies_exact reqs (h_replies c)) && (length (h_events c) =? S (length (h_breqs c)))%nat))
+                      (* a backend that writes more than the reply: the proxy may give up and close before the backend has read the last request *)
+      then [] else [SIG_EVENT])
   ++ (if h_bgarbage c && wf then [SIG_BACKEND_GARBAGE] else [])
   ++ (if h_bpeers c && (h_bconns c <=? 1)%N then [] else [SIG_PEERS]).
 
